@@ -795,7 +795,14 @@ func (e *Enc) builtin(fr *Frame, x *ssa.Call, bi *ssa.Builtin, st *State) {
 			fr.vals[x] = Val{T: []*Term{tb.Ite(tb.Lt(a, b), b, a)}}
 		}
 	case "recover":
-		fr.vals[x] = Val{T: []*Term{e.fresh("recovered", x.Type())}}
+		r := e.fresh("recovered", x.Type())
+		switch e.recoverMode {
+		case 1:
+			r = e.zero(x.Type())
+		case 2:
+			e.assume(st.reach, tb.Not(tb.Eq(r, e.zero(x.Type()))))
+		}
+		fr.vals[x] = Val{T: []*Term{r}}
 	case "close", "print", "println":
 	case "panic":
 		fr.panics = append(fr.panics, st.reach)
@@ -1030,7 +1037,18 @@ func (e *Enc) libraryCall(fr *Frame, x *ssa.Call, callee *ssa.Function, args []V
 func (e *Enc) makeClosure(fr *Frame, x *ssa.MakeClosure, st *State) {
 	tb := e.tb
 	fn := x.Fn.(*ssa.Function)
+	if e.onceCells == nil {
+		e.onceCells = map[*ssa.Function]map[*ssa.Alloc]*ssa.Store{}
+	}
+	once, ok := e.onceCells[fr.fn]
+	if !ok {
+		once = assignedOnceAtEntry(fr.fn)
+		e.onceCells[fr.fn] = once
+	}
 	for _, b := range x.Bindings { // whoever gets the function value can reach the captured variables
+		if a, isAlloc := b.(*ssa.Alloc); isAlloc && once[a] != nil {
+			continue // assigned once at entry and only read by the literals: nobody can change it
+		}
 		for _, t := range e.val(fr, b).T {
 			e.markEscaped(t, 0)
 		}
@@ -1038,9 +1056,6 @@ func (e *Enc) makeClosure(fr *Frame, x *ssa.MakeClosure, st *State) {
 	c := tb.Fresh("clo_"+fn.Name(), "Fn")
 	e.assume(tb.True(), tb.Not(tb.Eq(c, tb.Const("nilFn", "Fn"))))
 	fr.vals[x] = Val{T: []*Term{c}}
-	for _, b := range x.Bindings {
-		e.markEscaped(e.val(fr, b).t(), 0)
-	}
 	if e.closureHook != nil {
 		e.closureHook(fr, x, c, st)
 	}
